@@ -274,3 +274,42 @@ Theorem source_keys_honoured :
   end.
 Proof. exact source_keys_honoured_l. Qed.
 Print Assumptions source_keys_honoured.
+
+(** ** B.1 construction with __attrs_post_init__ *)
+
+(** When the cache initialisation is the last event of the tail of the generated __init__
+    (after __attrs_post_init__), every instance construction hands out hashes without raising
+    and — until a field is assigned — every hash() equals the uncached value of the fields it
+    holds then, WHATEVER the post-init program did (hash self, assign hashed fields). *)
+Theorem constructed_instances_hash_correctly : forall (val : Type) (key : keyid -> val -> val)
+  (ts : ktests) (eh : Type) (ehash : val -> eh) (hres : Type) (H : Z -> list eh -> hres)
+  (tail : list tail_ev) (c : cls) (vs : list val) (post : list (op val)) (i : inst val hres)
+  (ms : list (mobs hres)) (ops : list (op val)),
+  ends_with_cache tail = true ->
+  construct val key ts eh ehash hres H tail c vs post = (Some i, ms) ->
+  hash_returns val key ts eh ehash hres H c i ops /\
+  (forallb (fun o => negb (is_set val o)) ops = true ->
+   hashes_uncached val key ts eh ehash hres H c i ops).
+Proof. exact constructed_instances_hash_correctly_l. Qed.
+Print Assumptions constructed_instances_hash_correctly.
+
+(** "The cache is not readable before construction completes": with the order post-init, then
+    cache initialisation, a post-init that hashes self of a cache_hash class fails loudly. *)
+Theorem post_init_hash_refused : forall (val : Type) (key : keyid -> val -> val) (ts : ktests)
+  (eh : Type) (ehash : val -> eh) (hres : Type) (H : Z -> list eh -> hres) (c : cls)
+  (vs : list val) (post : list (op val)),
+  cache c = true ->
+  construct val key ts eh ehash hres H [TPost; TCache] c vs (OHash :: post) = (None, [MRaised]).
+Proof. exact post_init_hash_refused_l. Qed.
+Print Assumptions post_init_hash_refused.
+
+(** The order found in the source of this run ends with the cache initialisation
+    ([None]: shape not recognised, nothing claimed).  [Proofs.cache_before_post_init_is_stale]
+    shows what the other order does. *)
+Theorem source_init_tail_ends_with_cache :
+  match Gen.C04_consts.src_init_tail_read with
+  | Some t => ends_with_cache t = true
+  | None => True
+  end.
+Proof. exact source_init_tail_ends_with_cache_l. Qed.
+Print Assumptions source_init_tail_ends_with_cache.
